@@ -216,6 +216,55 @@ def o_vign(a):
     return not diff and abs(onaxis - 1.) < 1e-6, dict(mismatching_events=diff[:10], kept_fraction=frac, expected_fraction=float(numpy.minimum(1., v).mean()), on_axis=onaxis)
 
 
+def o_vignflow(a):
+    """the vignetting inside the simulation of a component: the off-axis angle handed to the hit-or-miss step is measured from where the
+    telescope points *at the time of the event* (the dithered pointing, with the dithering parameters of the call), for the true positions and
+    energies; dithering off: from the nominal pointing"""
+    import simdrive
+    from ixpeobssim.evt.event import xBaseEventList
+    from ixpeobssim.srcmodel.roi import xPointSource, xROIModel
+    from ixpeobssim.srcmodel.spectrum import power_law
+    from ixpeobssim.srcmodel.polarization import constant
+    from ixpeobssim.irf import load_irf_set
+    ra0, dec0 = a['ra'], a['dec']
+    roi = xROIModel(ra0, dec0)
+    off = a['offaxis_arcmin'] / 60.
+    roi.add_source(xPointSource('p', ra0 + off * math.cos(a['pa']) / math.cos(math.radians(dec0)), dec0 + off * math.sin(a['pa']), power_law(8., 2.), constant(0.2), constant(0.3)))
+    irf_set = load_irf_set(IRF, a['du'])
+    over = dict(start_met=a['t0'], duration=600., vignetting=True, dithering=a['dithering'])
+    over.update(a.get('dither', {}))
+    kwargs = simdrive.sim_kwargs(simdrive.config_path('toy_point_source.py'), 'unused.fits', **over)
+    seen = []
+    orig = xBaseEventList.apply_vignetting_base
+    def spy(self, ra, dec, energy, vign, ra_pnt, dec_pnt):
+        seen.append((numpy.array(self.time(), dtype=float), numpy.array(ra, dtype=float), numpy.array(dec, dtype=float), numpy.array(energy, dtype=float),
+                     numpy.array(numpy.broadcast_to(ra_pnt, numpy.shape(ra)), dtype=float), numpy.array(numpy.broadcast_to(dec_pnt, numpy.shape(ra)), dtype=float)))
+        return orig(self, ra, dec, energy, vign, ra_pnt, dec_pnt)
+    xBaseEventList.apply_vignetting_base = spy
+    try:
+        numpy.random.seed(a['seed'])
+        roi.rvs_event_list(irf_set, **kwargs)
+    finally:
+        xBaseEventList.apply_vignetting_base = orig
+    bad = []
+    if not seen:
+        return False, dict(violated=['vignetting=True but the hit-or-miss step was never reached'])
+    t, ra, dec, en, rp, dp = seen[0]
+    if a['dithering']:
+        A, pa_, px, py = [kwargs[k] for k in ('ditherampl', 'ditherpa', 'ditherpx', 'ditherpy')]
+        w = lambda p: 2. * math.pi / p
+        dx = A * numpy.cos(w(pa_) * t) * numpy.cos(w(px) * t) / 60.
+        dy = A * numpy.sin(w(pa_) * t) * numpy.sin(w(py) * t) / 60.
+        erp, edp = ra0 + dx / math.cos(math.radians(dec0)), dec0 + dy
+    else:
+        erp, edp = numpy.full(t.shape, ra0), numpy.full(t.shape, dec0)
+    err = float(max(numpy.abs((rp - erp) * math.cos(math.radians(dec0))).max(), numpy.abs(dp - edp).max()) * 3600.) if len(t) else 0.
+    if err > 0.05:
+        bad.append('the pointing handed to the vignetting is up to %.2f arcsec from the pointing at the event time (dithering %s, parameters %s)' % (
+            err, a['dithering'], a.get('dither', 'default')))
+    return not bad, dict(violated=bad, events=int(len(t)), max_pointing_err_arcsec=err)
+
+
 def fiducial_fraction(s, roi):
     """share of the source's solid angle that falls on the fiducial rectangle of the detector (on-axis point sources: 1; a uniform disk centred on the
     pointing: area of disk ∩ rectangle over the area of the disk — the rectangle is centred on the disk, so the DU rotation does not matter)"""
@@ -271,7 +320,7 @@ def o_counts(a):
     return not bad, dict(violated=bad, events=len(t))
 
 
-ORACLES = dict(spectrum=o_spectrum, seed=o_seed, vign=o_vign, counts=o_counts, history=o_history)
+ORACLES = dict(spectrum=o_spectrum, seed=o_seed, vign=o_vign, vignflow=o_vignflow, counts=o_counts, history=o_history)
 
 
 def run_oracle(chk, name, a, nontrivial=True):
@@ -324,6 +373,9 @@ def explore(chk, budget=1):
         run_oracle(chk, 'seed', a)
     for du in ((int(g.integers(1, 4)),) if quick else (1, 2, 3)):
         run_oracle(chk, 'vign', dict(du=du, seed=int(g.integers(1, 10 ** 6))))
+        for dith in (dict(dithering=True), dict(dithering=True, dither=dict(ditherampl=2.5, ditherpa=700., ditherpx=83., ditherpy=300.)), dict(dithering=False)):
+            run_oracle(chk, 'vignflow', dict(du=du, seed=int(g.integers(1, 10 ** 6)), ra=float(g.uniform(5., 355.)), dec=float(g.uniform(-60., 60.)), t0=float(g.choice([0., 1.5e8])),
+                                             offaxis_arcmin=float(g.uniform(0., 5.)), pa=float(g.uniform(0., 6.28)), **dith))
     for i in range(1 if quick else 6):
         wins = [(2., 8.), (1., 12.), (4., 6.), (2., 8.)] if i == 0 else [tuple(sorted(float(x) for x in numpy.round(g.uniform(1., 12., 2), 2))) for _ in range(4)]
         wins = [w for w in wins if w[1] - w[0] > 0.5]
